@@ -27,7 +27,7 @@ def run_impl(ops):
             out.append(("RW",))
         elif o[0] == "R":
             try:
-                out.append(("RR", b1.read(o[1])))
+                out.append(("RR", ("v", b1.read(o[1]))))
             except KeyError:
                 out.append(("RR", None))
         else:
@@ -51,17 +51,24 @@ def run_impl(ops):
     return out, list(b1._memory.items()), m3
 
 
+NONE = -777_777      # the Python value None as a stored value: a value like any other, not "nothing stored"
+
+
+def zv(v):
+    return Zr(NONE if v is None else v)
+
+
 def ws(l):
-    return L(T(P(a), Zr(v)) for a, v in l)
+    return L(T(P(a), zv(v)) for a, v in l)
 
 
 def render(ops, obs):
     res, m1, m2 = obs
     rops = L(
-        f"W {P(o[1])} {Zr(o[2])}" if o[0] == "W" else (f"R {P(o[1])}" if o[0] == "R" else f"U {ws(o[1] or [])}")
+        f"W {P(o[1])} {zv(o[2])}" if o[0] == "W" else (f"R {P(o[1])}" if o[0] == "R" else f"U {ws(o[1] or [])}")
         for o in ops
     )
-    rres = L("RW" if r[0] == "RW" else (f"RR {O(r[1], Zr)}" if r[0] == "RR" else f"RU {ws(r[1])}") for r in res)
+    rres = L("RW" if r[0] == "RW" else (("RR None" if r[1] is None else f"RR (Some {zv(r[1][1])})") if r[0] == "RR" else f"RU {ws(r[1])}") for r in res)
     return T(rops, rres, T(ws(m1), ws(m2)))
 
 
@@ -97,6 +104,8 @@ def gen_cases(tier, rng):
         [("W", 1, 10), ("W", 1, 20), ("U", None), ("R", 1)],
         [("W", 1, 10), ("U", [(1, 5)]), ("R", 1)],
         [("U", [(1, 1), (1, 2), (2, 3)]), ("R", 1), ("R", 2), ("R", 3)],
+        [("W", 1, None), ("U", None), ("R", 1)],
+        [("W", 1, 4), ("U", [(1, None)]), ("R", 1), ("W", 1, 0), ("R", 1), ("U", None), ("R", 1)],
     ]
     cases += corpus
     al = alphabet()
@@ -112,12 +121,12 @@ def gen_cases(tier, rng):
         for _ in range(rng.randint(1, 40 if rng.random() < 0.2 else 10)):
             x = rng.random()
             if x < 0.45:
-                ops.append(("W", rng.randint(1, 4), rng.randint(-3, 9)))
+                ops.append(("W", rng.randint(1, 4), None if rng.random() < 0.08 else rng.randint(-3, 9)))
             elif x < 0.65:
                 ops.append(("R", rng.randint(1, 5)))
             else:
                 ops.append(("U", None if rng.random() < 0.3 else
-                            [(rng.randint(1, 4), rng.randint(-3, 9)) for _ in range(rng.randint(0, 3))]))
+                            [(rng.randint(1, 4), None if rng.random() < 0.08 else rng.randint(-3, 9)) for _ in range(rng.randint(0, 3))]))
         cases.append(ops)
     return cases, exhaustive, maxlen
 
